@@ -19,18 +19,16 @@ from .sweep import option_valuations
 from .report import ROOT
 
 
-def accepting_units(tier='quick'):
-    """(module -> list of (opts dict, n)) with at least one accepting path, from the newest C01 sweep cache"""
-    d = os.path.join(ROOT, '.cache', 'sweep')
-    gens = sorted(glob.glob(os.path.join(d, '*')), key=os.path.getmtime)
+def accepting_units(tier='quick', modules=None):
+    """(module -> list of (opts repr, n)) with at least one accepting path, from the C01 sweep of the current tree
+    (content-hash cache; swept now if absent)"""
+    from .props import vfamily
+    results = vfamily.run_sweep('quick', modules, True, log=False)
     out = {}
-    if not gens:
-        return None
-    for p in glob.glob(os.path.join(gens[-1], '*.json')):
-        r = json.load(open(p))
+    for m, r in results.items():
         if 'units' not in r:
             continue
-        out[r['module']] = [(u['opts'], u['n']) for u in r['units'] if u.get('accept')]
+        out[m] = [(u['opts'], u['n']) for u in r['units'] if u.get('accept')]
     return out
 
 
